@@ -382,6 +382,7 @@ pub fn run_batch<P: Prop>(p: &P, cfg: &BatchCfg) -> i32 {
     let mut exit = 0;
     let mut n_violations = 0;
     let mut known_hits: BTreeSet<String> = BTreeSet::new();
+    let mut n_nonrepro = 0u64;
     let replay_dir = format!("{}/replays", crate::verif_root());
     let _ = std::fs::create_dir_all(&replay_dir);
     for o in &outs {
@@ -412,11 +413,14 @@ pub fn run_batch<P: Prop>(p: &P, cfg: &BatchCfg) -> i32 {
             Err(_) => false,
         };
         if !reproduced {
+            // Not reported as a violation (a trace that does not replay proves nothing by itself);
+            // it fails the check as a harness error only if no violation of this batch replays.
             println!(
-                "HARNESS-ERROR property={id} violation of oracle {} in run {} did not reproduce from {path} in a fresh process: {}",
-                v.oracle, o.run, v.detail
+                "NON-REPRODUCING property={id} oracle {} in run {} did not reproduce from {path} in a fresh process (state leaking between runs of one worker?): {}",
+                v.oracle, o.run, v.detail.chars().take(400).collect::<String>()
             );
-            exit = 2;
+            n_nonrepro += 1;
+            let _ = std::fs::remove_file(&path);
             continue;
         }
         // the replayed (minimised) detail decides whether this is a known finding
@@ -450,6 +454,10 @@ pub fn run_batch<P: Prop>(p: &P, cfg: &BatchCfg) -> i32 {
     }
     for k in &known_hits {
         println!("KNOWN-FINDING: {k}");
+    }
+    if n_nonrepro > 0 && exit == 0 {
+        println!("HARNESS-ERROR property={id} {n_nonrepro} violation(s) were observed but none replays from its trace in a fresh process");
+        exit = 2;
     }
 
     let wall = t0.elapsed().as_secs_f64();
